@@ -5,7 +5,17 @@ import os
 HERE = os.path.dirname(os.path.dirname(os.path.abspath(__file__)))
 
 CLAIMED = {
-    "C12": dict(
+    "C18": dict(
+        level="exploration", design="DESIGN.md 3/C18",
+        text=("State-machine comparison: Alias / DeprecatedAlias configurations passthrough x transform x fallback x path shape "
+              "(plain, dotted, [\"key\"], mixed) on plain classes and on spec classes (alias as managed attribute); seeded sequences "
+              "over {read / write / delete alias, read / write / delete target, mutate a returned fallback, with_al / with_target / "
+              "reset_al on spec hosts, deepcopy and continue on either instance} with injected faults in the transform; value, "
+              "exception class, target state of every live instance and the warnings of every access (DeprecatedAlias: exactly "
+              "DeprecationWarning on every access, Alias: none) are compared with a two-variable (target, local override) model."),
+        note="Trusted: the reference model in specsim/props/c18.py; the warnings filter is a controlled global (catch_warnings + always).",
+        technique="deterministic simulation: seeded operation sequences with injected callback faults vs explicit two-variable state-machine model",
+    ),    "C12": dict(
         level="exploration", design="DESIGN.md 3/C12",
         text=("State-machine comparison: spec_property in all 16 combinations of (overridable, cache, custom setter, custom deleter) "
               "on a plain class, a spec class without annotation, with annotation, with annotation + preparer, with a conforming and "
